@@ -30,6 +30,7 @@ import (
 	"verifsim/schedconn"
 	"verifsim/shimmodel"
 	"verifsim/sim"
+	"verifsim/simsync"
 	"verifsim/simtime"
 	"verifsim/worlds"
 )
@@ -650,7 +651,9 @@ func execC11(t *testing.T, raw json.RawMessage) *sim.Outcome {
 			a.Close()
 		})
 	})
+	spawnedBefore := simsync.Spawned()
 	s.Run()
+	chanProbes(o, s, spawnedBefore)
 	if os.Getenv("VERIF_DEBUG_TASKS") != "" {
 		for _, tk := range s.Tasks() {
 			bl, on := tk.IsBlocked()
